@@ -22,3 +22,5 @@ Definition csp_sat (sg:sym -> Z) (cs:list icon) : bool := forallb (ceval sg) cs.
 Definition is_add (s:list icon) (c:icon) : list icon := s ++ [c].
 (* term.is_symbol() *)
 Definition iterm_is_sym (t:iterm) : bool := match t with ISym _ => true | _ => false end.
+(* the value of an Optional that was tested to be present *)
+Definition py_unsome {A R L} (a:option A) : ctl R L A := match a with Some x => Next x | None => Raise end.
